@@ -3,6 +3,7 @@ import SF.Props.C11
 import SF.Props.C04
 import SF.Lemmas.Cum
 import SF.Lemmas.Linear
+import SF.Lemmas.DcGain
 /-
   C10 — Linear views obey superposition.
   For streams `x`, `y` of equal length and scalars `a`, `b` (any sign, including 0): view(a·x + b·y) = a·view(x) + b·view(y)
@@ -209,5 +210,83 @@ theorem cyberCycle_view_linear [Transc α] (N : Nat) (hN : 6 ≤ N) (a b : α) (
     (ccCoreU (α := α) N).outAfter (Linear.lin a b xs ys)
       = .ok (Linear.olin a b (Spec.cyberCycle N xs) (Spec.cyberCycle N ys)) := by
   rw [C11.cyberCycle_eq N hN, CcLinear.cyberCycle_linear N a b xs ys h]
+
+end SF.C10
+
+/-! ### response to a constant stream (third sentence of the statement): SuperSmoother converges to the constant, the
+high-pass members RoofingFilter and CyberCycle send it to 0 — geometrically, for every admissible window length -/
+namespace SF.C10.Real
+open SF SF.Spec
+
+/-- the SuperSmoother has unit DC gain: c1 + b1 + c3 = 1 -/
+theorem superSmoother_unit_gain (N : Nat) :
+    (Spec.ssCoef (α := ℝ) N).c1 = 1 - (Spec.ssCoef (α := ℝ) N).b1 - (Spec.ssCoef (α := ℝ) N).c3 := by
+  simp [Spec.ssCoef]
+
+/-- **SuperSmoother converges to a constant input, geometrically, for every N ≥ 1**: after ANY history `xs`, once the
+input has been c0 for one step, each further c0 multiplies the Lyapunov functional of the deviation from c0 by
+(1 + a1)/2 < 1; the functional dominates |output − c0| -/
+theorem superSmoother_dc_converges (N : Nat) (hN : 0 < N) (xs : List ℝ) (c0 : ℝ) (k : Nat) (v : ℝ)
+    (h : Spec.superSmoother N (xs ++ [c0] ++ List.replicate k c0) = some v) :
+    |v - c0| ≤ ((1 + SsStable.ssA N) / 2) ^ k *
+      DcGain.Vc (TwoPole.pole (SsStable.ssA N) (44422 / 10000 / N)) (SsStable.ssA N) c0
+        (SS.foldState (Spec.ssCoef (α := ℝ) N) 0 (xs ++ [c0])) := by
+  have ha := SsStable.ssA_range N hN
+  have hc := SsStable.ssCoef_form N
+  have hd := DcGain.const_tail_decay (Spec.ssCoef (α := ℝ) N) (SsStable.ssA N) (44422 / 10000 / N) ha.1.le ha.2 hc.1 hc.2
+    (superSmoother_unit_gain N) 0 c0 xs k
+  have hdom := DcGain.abs_head_sub_le_Vc (TwoPole.pole (SsStable.ssA N) (44422 / 10000 / N)) (SsStable.ssA N) c0 ha.1.le ha.2
+    (SS.foldState (Spec.ssCoef (α := ℝ) N) 0 (xs ++ [c0] ++ List.replicate k c0))
+  have hv : (SS.foldState (Spec.ssCoef (α := ℝ) N) 0 (xs ++ [c0] ++ List.replicate k c0)).1.headD 0 = v := by
+    simp only [Spec.superSmoother] at h
+    split at h
+    · simp at h
+    · rw [SS.smoothSeq_eq] at h
+      simp only [nat_eq, Nat.cast_zero] at h
+      cases hq : (SS.foldState (Spec.ssCoef (α := ℝ) N) 0 (xs ++ [c0] ++ List.replicate k c0)).1 with
+      | nil => rw [hq] at h; simp at h
+      | cons y r => rw [hq] at h; simp at h; simp [h]
+  rw [hv] at hdom
+  exact le_trans hdom hd
+
+/-- the contraction factor of the SuperSmoother is strictly inside (0, 1) -/
+theorem superSmoother_rate (N : Nat) (hN : 0 < N) : 0 < (1 + SsStable.ssA N) / 2 ∧ (1 + SsStable.ssA N) / 2 < 1 := by
+  have := SsStable.ssA_range N hN
+  constructor <;> linarith [this.1, this.2]
+
+/-- **RoofingFilter(N, M) sends a constant stream to 0, geometrically, for every N ≥ 2, M ≥ 1**: after ANY history longer
+than the high-pass delay that ends in two equal values c0, c0, every further c0 multiplies the joint functional `roofW`
+(smoother functional + weighted high-pass functional) by `roofRate N M` < 1, and `roofW` dominates |output| -/
+theorem roofing_dc_decays (N M : Nat) (hN : 2 ≤ N) (hM : 0 < M) (l : List ℝ) (c0 : ℝ) (hl : N < (l ++ [c0]).length) (k : Nat)
+    (v : ℝ) (h : Spec.roofing N M (l ++ [c0] ++ [c0] ++ List.replicate k c0) = some v) :
+    |v| ≤ DcGain.roofRate N M ^ k * DcGain.roofW N M (l ++ [c0] ++ [c0]) :=
+  le_trans (DcGain.abs_roofing_le_W N M hN hM _ v h) (DcGain.roof_joint_decay N M hN hM l c0 hl k).1
+
+theorem roofing_rate (N M : Nat) (hN : 2 ≤ N) (hM : 0 < M) : 0 < DcGain.roofRate N M ∧ DcGain.roofRate N M < 1 :=
+  DcGain.roofRate_lt_one N M hN hM
+
+/-- … the same for the view itself (state machine), through C11 -/
+theorem roofing_view_dc_decays (N M : Nat) (hN : 2 ≤ N) (hM : 0 < M) (l : List ℝ) (c0 : ℝ) (hl : N < (l ++ [c0]).length) (k : Nat)
+    (v : ℝ) (h : (roofCoreU (α := ℝ) N M).outAfter (l ++ [c0] ++ [c0] ++ List.replicate k c0) = .ok (some v)) :
+    |v| ≤ DcGain.roofRate N M ^ k * DcGain.roofW N M (l ++ [c0] ++ [c0]) := by
+  rw [C11.roofing_eq N M hM] at h
+  exact roofing_dc_decays N M hN hM l c0 hl k v (by simpa using h)
+
+end SF.C10.Real
+
+namespace SF.C10
+open SF SF.Spec
+variable {α : Type} [Field α] [LinearOrder α] [IsStrictOrderedRing α] [FloatLike α] [ExactScalar α]
+
+/-- **CyberCycle sends a constant stream to 0, geometrically, for every N ≥ 1** (any ordered field): history `xs`
+followed by L copies of c0; from five steps into the constant stretch V(n) = |c(n+1)| + (2p/(1−p))·|c(n+1) − p·c(n)|
+shrinks by (1+p)/2 = N/(N+1) per step and dominates the output |c(n+1)| -/
+theorem cyberCycle_dc_decays [Transc α] (N : Nat) (hN : 1 ≤ N) (xs : List α) (c0 : α) (L m k : Nat)
+    (hm1 : xs.length + 5 ≤ m + 2) (hm2 : N ≤ m + 3) (hL : m + k + 1 < xs.length + L) :
+    let p : α := 1 - 2 / ((N : α) + 1)
+    let c := fun n => DoublePole.cAt N (xs ++ List.replicate L c0) n
+    let V := fun n => |c (n + 1)| + 2 * p / (1 - p) * |c (n + 1) - p * c n|
+    V (m + k) ≤ ((1 + p) / 2) ^ k * V m ∧ |c (m + k + 1)| ≤ V (m + k) :=
+  DcGain.cc_const_decay N hN xs c0 L m k hm1 hm2 hL
 
 end SF.C10
